@@ -105,6 +105,12 @@ def comparator_fields(prog, fn, tr):
     return out
 
 
+def _canon(sig):
+    """Sink signatures up to idiom: a sequence filled by push in a loop and one collected from the iterator are the
+    same sink (elements land in a Vec in iteration order)."""
+    return tuple(sorted({x.replace('seq:collect-into-Vec', 'seq:Vec::push') for x in sig}))
+
+
 def run(chk, prog):
     tr = Tracer(prog)
     chk.not_decided += ['float formatting / arithmetic agreement between debug and release builds (values)',
@@ -141,7 +147,7 @@ def run(chk, prog):
                      % ', '.join(r['sig']), r['loc'], {'sinks': r['sinks']})
             continue
         sig, verdict, reason = ent
-        if tuple(sig) != tuple(r['sig']):
+        if _canon(sig) != _canon(r['sig']):
             chk.fail(R1, key + '|changed', 'hash-iteration site changed since it was classified: sinks now %s, '
                      'confirmed as %s' % (list(r['sig']), list(sig)), r['loc'])
             continue
